@@ -57,7 +57,7 @@ def evaluate(root, env):
         return None
 
 
-def check_application(rule_name: str, root, node, envs=None) -> List[Dict[str, Any]]:
+def check_application(rule_name: str, root, node, envs=None, info=None) -> List[Dict[str, Any]]:
     """Apply the rule the way search agents do (on a copy cloned from the root) and check the
     contract.  Returns a list of failures (empty = contract held)."""
     envs = envs or ASSIGNMENTS
@@ -80,6 +80,8 @@ def check_application(rule_name: str, root, node, envs=None) -> List[Dict[str, A
         fail("C06", "can_apply_to/pure", "the tree was modified by the applicability check")
     if can is not can2 or not isinstance(can, bool):
         fail("C06", "can_apply_to/deterministic", f"answers {can!r} then {can2!r}")
+    if info is not None:
+        info["applicable"] = bool(can)
     if not can:
         return fails
     work = node.clone_from_root()
@@ -168,8 +170,9 @@ def replay_witness(w: Dict[str, Any]) -> Dict[str, Any]:
         return {"realised": False, "reason": "node not found in realised tree"}
     env = {k: Fraction(v).limit_denominator(10**6) if isinstance(v, float) else Fraction(v) for k, v in names["env"].items() if v is not None}
     envs = [env] + [dict(env, **{k: env[k] + d for k in env}) for d in (1, -2)]
-    fails = check_application(w["rule"], root, node, envs)
-    return {"realised": True, "input": str(root), "node": str(node), "env": {k: str(v) for k, v in env.items()}, "failures": fails}
+    info: Dict[str, Any] = {}
+    fails = check_application(w["rule"], root, node, envs, info)
+    return {"realised": True, "input": str(root), "node": str(node), "env": {k: str(v) for k, v in env.items()}, "failures": fails, "applicable": info.get("applicable")}
 
 
 def main():
